@@ -55,7 +55,7 @@ PROPS = {
         kani=['k_player_bytes_8_4'],
     ),
     'C19': dict(
-        units=[('startend', r'(try_from|lemma_nul_len|C19|^player$)')],
+        units=[('startend', r'(try_from|lemma_nul_len|C19|^player$|to_normalized|lemma_fix_char)')],
         kani=['c19_fix_char'],
     ),
     'C06': dict(
@@ -64,7 +64,7 @@ PROPS = {
         kani=[],
     ),
     'C07': dict(
-        units=[('reader', r'(C07|^read$|^parse_header|^parse_payloads|^parse_game_start|^parse_start|^parse_metadata|expect_bytes)'), ('event', r'(C07|parse_event__total)'), ('ubjson', r'(C07)'), ('slpp', r'(C07|read_arrow_frames|(^|::)read$)')],
+        units=[('reader', r'(C07|^read$|^parse_header|^parse_payloads|^parse_game_start|^parse_start|^parse_metadata|expect_bytes)'), ('event', r'(C07|parse_event__total)'), ('ubjson', r'(C07)'), ('slpp', r'(C07|read_arrow_frames|(^|::)read$|C18\.reader_accepts_exactly|C18\.reader_dispatch)')],
         kani=[],
     ),
     'C12': dict(
